@@ -672,6 +672,178 @@ def search_whole_sim_var(ctx, fd, rebound):
                         % ("variational particles / MEGNO" if (worst and worst[2]) or mg else "real particles"))
 
 
+def search_reuse(ctx, fd, rebound):
+    """object-level laws of the Python layer: every operation is applied to REUSED operands; no operation may change the bytes of an operand or
+    return an object sharing storage with one; results are stored and compared later with values computed from float tuples taken at creation."""
+    import ctypes
+    rng = ctx.rng
+    R, V = rebound.Rotation, rebound.Vec3d
+
+    def vt(v): return (float(v[0]), float(v[1]), float(v[2]))
+    def qt(q): return (q.ix, q.iy, q.iz, q.r)
+    def pt(p): return tuple(getattr(p, c) for c in ("m", "x", "y", "z", "vx", "vy", "vz"))
+    def st(sim): return tuple(pt(sim.particles[i]) for i in range(sim.N))
+    def snap(o):
+        if isinstance(o, V): return ("V", bytes(o._vec3d), vt(o))
+        if isinstance(o, R): return ("R", bytes(o), qt(o))
+        if isinstance(o, rebound.Particle): return ("P", pt(o))
+        if isinstance(o, rebound.Simulation): return ("S", st(o), o.t, o.G)
+        return ("x", repr(o))
+    def addr(o):
+        if isinstance(o, V): return ctypes.addressof(o._vec3d)
+        if isinstance(o, (R, rebound.Particle, rebound.Simulation)): return ctypes.addressof(o)
+        return None
+    def close(a, b, tol): return all(abs(x - y) <= tol for x, y in zip(a, b))
+    def exrot(q, v): return tuple(float(x) for x in xrot(q, v))
+    def qmul(p, q):
+        pix, piy, piz, pr = p; qix, qiy, qiz, qr = q
+        return (pr * qix + pix * qr + piy * qiz - piz * qiy, pr * qiy - pix * qiz + piy * qr + piz * qix,
+                pr * qiz + pix * qiy - piy * qix + piz * qr, pr * qr - pix * qix - piy * qiy - piz * qiz)
+
+    def apply(name, fn, operands, expect, tol, rep):
+        """run fn twice on the same operand objects; operands must be byte-identical afterwards; the result must be a fresh object equal to expect"""
+        before = [snap(o) for o in operands]
+        res = []
+        for rnd in (1, 2):
+            ctx.evaluations += 1
+            try:
+                r = fn()
+            except Exception as e:
+                fd.fail("reuse:exception:" + name, dict(rep, operation=name, error=repr(e)), "%s raised %r" % (name, e))
+                return None
+            after = [snap(o) for o in operands]
+            if after != before:
+                k = [i for i in range(len(before)) if after[i] != before[i]][0]
+                fd.fail("reuse:operand-modified:" + name, dict(rep, operation=name, evaluation=rnd, operand=k, before=before[k][-1], after=after[k][-1]),
+                        "%s changed its operand number %d (evaluation %d)" % (name, k, rnd))
+                return None
+            if any(addr(r) is not None and addr(r) == addr(o) for o in operands):
+                fd.fail("reuse:alias:" + name, dict(rep, operation=name), "%s returned an object that shares storage with an operand" % name)
+                return None
+            got = snap(r)[-1] if not isinstance(r, rebound.Simulation) else st(r)
+            flat_g = [x for y in got for x in (y if isinstance(y, tuple) else (y,))]
+            flat_e = [x for y in expect for x in (y if isinstance(y, tuple) else (y,))]
+            if len(flat_g) != len(flat_e) or not close(flat_g, flat_e, tol):
+                fd.fail("reuse:value:" + name, dict(rep, operation=name, evaluation=rnd, got=got, expected=expect),
+                        "%s: evaluation %d on reused operands gives a value different from the one computed from independent copies" % (name, rnd))
+                return None
+            res.append(r)
+        return res[0]
+
+    for k in range(ctx.scale(60, 800)):
+        v0 = tuple(gvec(rng)); w0 = tuple(gvec(rng))
+        sc = max(nrm(v0), nrm(w0))
+        q1 = R.from_to(gvec(rng), gvec(rng)); q2 = R(angle=rng.uniform(-6, 6), axis=gvec(rng))
+        q1t, q2t = qt(q1), qt(q2)
+        v = V(list(v0)); w = V(list(w0))
+        rep = {"v": v0, "w": w0, "q1": q1t, "q2": q2t}
+        tol = 64 * EPS * sc
+        # Rotation * Vec3d / list, stored intermediates used again
+        a = apply("Rotation*Vec3d", lambda: q1 * v, [q1, v], exrot(q1t, v0), tol, rep)
+        if a is None: continue
+        a0 = vt(a)
+        b = apply("Rotation*(Rotation*Vec3d)", lambda: q2 * a, [q2, a], exrot(q2t, a0), tol, rep)
+        if b is None: continue
+        apply("Rotation*list", lambda: q1 * list(v0), [q1], exrot(q1t, v0), tol, rep)
+        c = apply("inverse()*stored", lambda: q1.inverse() * a, [q1, a], v0, tol * 4, rep)
+        apply("(q2*q1)*Vec3d", lambda: (q2 * q1) * v, [q1, q2, v], vt(b), tol * 4, rep)
+        if vt(a) != a0 or vt(v) != v0:
+            fd.fail("reuse:stored-result-changed", dict(rep, stored=a0, now=vt(a)), "a stored result of Rotation*Vec3d changed when it was used in later operations")
+            continue
+        # Rotation*Rotation, inverse, normalize
+        apply("Rotation*Rotation", lambda: q2 * q1, [q1, q2], qmul(q2t, q1t), 1e-15 * 8, rep)
+        apply("Rotation.inverse", lambda: q1.inverse(), [q1], (-q1t[0], -q1t[1], -q1t[2], q1t[3]), 1e-15 * 8, rep)
+        apply("Rotation.normalize", lambda: q1.normalize(), [q1], q1t, 1e-15 * 8, rep)
+        # Vec3d arithmetic
+        apply("Vec3d+Vec3d", lambda: v + w, [v, w], tuple(x + y for x, y in zip(v0, w0)), 0.0, rep)
+        apply("Vec3d-Vec3d", lambda: v - w, [v, w], tuple(x - y for x, y in zip(v0, w0)), 0.0, rep)
+        apply("Vec3d+self", lambda: v + v, [v], tuple(x + x for x in v0), 0.0, rep)
+        apply("Vec3d*scalar", lambda: v * 2.5, [v], tuple(x * 2.5 for x in v0), 0.0, rep)
+        apply("Vec3d/scalar", lambda: v / 4.0, [v], tuple(x / 4.0 for x in v0), 0.0, rep)
+        apply("Vec3d(Vec3d)", lambda: V(v), [v], v0, 0.0, rep)
+        # Particle / Simulation
+        if k % 4 == 0:
+            sim = rebound.Simulation()
+            for i in range(3):
+                sim.add(m=rng.uniform(0.1, 1), x=rng.gauss(0, 1), y=rng.gauss(0, 1), z=rng.gauss(0, 1), vx=rng.gauss(0, 1), vy=rng.gauss(0, 1), vz=rng.gauss(0, 1))
+            sim2 = sim.copy()
+            for i in range(3):
+                sim2.particles[i].x += 1.0 + i
+            s0, s20 = st(sim), st(sim2)
+            L0 = vt(V(sim.angular_momentum()))
+            rot_s = tuple((p[0],) + exrot(q1t, p[1:4]) + exrot(q1t, p[4:7]) for p in s0)
+            apply("Rotation*Simulation", lambda: q1 * sim, [q1, sim], rot_s, 64 * EPS * 8, rep)
+            p0 = sim.particles[1]
+            apply("Rotation*Particle", lambda: q1 * p0, [q1, p0, sim], rot_s[1], 64 * EPS * 8, rep)
+            Lv = V(sim.angular_momentum())
+            apply("Rotation*angular_momentum", lambda: q1 * Lv, [q1, Lv, sim], exrot(q1t, L0), 64 * EPS * max(nrm(L0), 1e-300), rep)
+            apply("Simulation+Simulation", lambda: sim + sim2, [sim, sim2], tuple((a[0],) + tuple(x + y for x, y in zip(a[1:], b[1:])) for a, b in zip(s0, s20)), 0.0, rep)
+            apply("Simulation-Simulation", lambda: sim - sim2, [sim, sim2], tuple((a[0],) + tuple(x - y for x, y in zip(a[1:], b[1:])) for a, b in zip(s0, s20)), 0.0, rep)
+            apply("Simulation*scalar", lambda: sim * 3.0, [sim], tuple((a[0],) + tuple(x * 3.0 for x in a[1:]) for a in s0), 0.0, rep)
+            apply("scalar*Simulation", lambda: 3.0 * sim, [sim], tuple((a[0],) + tuple(x * 3.0 for x in a[1:]) for a in s0), 0.0, rep)
+            apply("Simulation/scalar", lambda: sim / 4.0, [sim], tuple((a[0],) + tuple(x * 0.25 for x in a[1:]) for a in s0), 0.0, rep)
+            apply("Simulation.copy", lambda: sim.copy(), [sim], s0, 0.0, rep)
+            apply("Particle.copy", lambda: p0.copy(), [p0, sim], s0[1], 0.0, rep)
+    # in-place Vec3d methods of the Python layer
+    v = V([1.0, 2.0, 2.0]); q = R(angle=0.3, axis=[0.0, 0.0, 1.0])
+    for name, fn, exp in (("Vec3d.rotate", lambda: v.rotate(q), exrot(qt(q), (1.0, 2.0, 2.0))), ("Vec3d.normalize", lambda: V([1.0, 2.0, 2.0]).normalize(), (1 / 3, 2 / 3, 2 / 3))):
+        ctx.evaluations += 1
+        try:
+            r = fn()
+            if not close(vt(r), exp, 1e-15):
+                fd.fail("vec3d:methods-broken", {"method": name, "result": vt(r), "expected": exp}, "%s gives a wrong vector" % name)
+        except Exception as e:
+            fd.fail("vec3d:methods-broken", {"method": name, "call": "rebound.Vec3d([1,2,2])." + name.split(".")[1] + "(...)", "error": repr(e)},
+                    "%s raises %r" % (name, e))
+
+
+def search_history(ctx, fd, rebound):
+    """a change of units / scale must commute with integrating (physical predictions do not depend on the unit system); built-in data in preset units"""
+    import warnings
+    YR = 31557600.0; AUm = 149597870700.0
+    for integ in ("ias15", "whfast"):
+        def mk():
+            s = rebound.Simulation(); s.units = ('m', 's', 'kg')
+            MS = 1.98847e30
+            s.add(m=MS)
+            s.add(m=5.97e24, x=AUm, vy=1.1 * math.sqrt(s.G * MS / AUm)); s.add(m=1.9e27, x=5.2 * AUm, vy=math.sqrt(s.G * MS / (5.2 * AUm)))
+            s.integrator = integ; s.dt = 86400.0 * 10
+            return s
+        ctx.evaluations += 1
+        a = mk(); a.integrate(3 * YR); a.integrate(6 * YR)
+        b = mk(); b.integrate(3 * YR); t, dt = b.t, b.dt
+        b.convert_particle_units('au', 'yr', 'msun'); b.t = t / YR; b.dt = dt / YR
+        b.integrate(6.0)
+        err = max(abs(p.x / AUm - q.x) + abs(p.y / AUm - q.y) for p, q in zip(a.particles, b.particles))
+        if err > 1e-9:
+            fd.fail("units:convert-then-integrate:" + integ,
+                    {"integrator": integ, "sequence": "units (m,s,kg): Sun + 2 planets, dt=10 d; integrate(3 yr); convert_particle_units('au','yr','msun') with t, dt rescaled by hand; "
+                     "integrate(6 yr)  versus the same run continued in SI", "difference_AU": err},
+                    "continuing an integration after convert_particle_units gives a different trajectory than continuing in the old units (stale integrator state)")
+        for sc in (1e6,):
+            ctx.evaluations += 1
+            m1 = rebound.Simulation(); m1.add(m=1.0); m1.add(m=1e-3, a=1.0, e=0.1); m1.add(m=1e-3, a=2.3, e=0.05); m1.integrator = integ; m1.dt = 0.01
+            m2 = m1.copy()
+            m1.integrate(20.0); m1.integrate(40.0)
+            m2.integrate(20.0)
+            m2.multiply(sc, 1 / math.sqrt(sc)); m2.t *= sc ** 1.5; m2.dt *= sc ** 1.5      # Kepler scaling: x -> s x, v -> v/sqrt(s), t -> s^1.5 t
+            with warnings.catch_warnings():
+                warnings.simplefilter("ignore")
+                m2.integrate(40.0 * sc ** 1.5)
+            err = max(abs(p.x * sc - q.x) / sc for p, q in zip(m1.particles, m2.particles))
+            if err > 1e-9:
+                fd.fail("imul:then-integrate:" + integ, {"integrator": integ, "scale": sc, "sequence": "G=1: star + 2 planets, integrate(20); multiply(s, s^-1/2), t, dt *= s^1.5; "
+                        "integrate(40 s^1.5)  versus integrate(40) unscaled", "relative_difference": err},
+                        "continuing an integration after Simulation.multiply (an exact Kepler rescaling) differs from the unscaled run (stale integrator state)")
+    for nm, idx, Pyr in (("solar system", 3, 1.0), ("outer solar system", 1, 11.86)):
+        ctx.evaluations += 1
+        s = rebound.Simulation(); s.units = ('km', 's', 'kg'); s.add(nm)
+        o = s.particles[idx].orbit(primary=s.particles[0])
+        if not (abs(o.P / YR / Pyr - 1) < 1e-2):
+            fd.fail("units:builtin-dataset-ignores-units", {"call": "sim.units=('km','s','kg'); sim.add(%r)" % nm, "particle": idx, "P_seconds": o.P, "a_km": o.a, "x_km": s.particles[idx].x},
+                    "sim.add(%r) adds the AU / yr/2pi / Msun numbers unconverted into a simulation whose units are already set" % nm)
+
+
 def search_slerp(ctx, fd, clib, Rot):
     """reb_rotation_slerp (C API only): end points, unit norm and constant angular speed along the great arc between unit quaternions"""
     rng = ctx.rng
@@ -729,6 +901,7 @@ def search(ctx, rebound, clib, Rot, V3):
     fd = Finder(ctx)
     for name, fn in (("units", search_units), ("rotations", search_rot), ("frames", search_frames),
                      ("whole-simulation rotation with variations", search_whole_sim_var),
+                     ("reused objects / aliasing", search_reuse), ("units or scale change then integrate", search_history),
                      ("slerp", lambda c, f, r: search_slerp(c, f, clib, Rot))):
         try:
             fn(ctx, fd, rebound)
